@@ -88,11 +88,11 @@ package snps
 //@   after assign:cWriteDone#1: assume [env.errors] forallint(k, envat(cErr, k) != nil)
 //@   ghost gErrSeen bool = false
 //@   loop 1:
-//@     invariant !gErrSeen && len(recvd(cErr)) == 0
+//@     invariant !gErrSeen && len(recvd(cErr)) == 0 && len(recvd(cFRDone)) == 0 && len(recvd(cSNPsDone)) == 0 && len(recvd(cWriteDone)) == 0
 //@   loop 2:
-//@     invariant !gErrSeen && len(recvd(cErr)) == 0 && 0 <= n && n <= 1 && len(recvd(cFRDone)) + n == 1
+//@     invariant !gErrSeen && len(recvd(cErr)) == 0 && 0 <= n && n <= 1 && len(recvd(cFRDone)) + n == 1 && len(recvd(cSNPsDone)) == 0 && len(recvd(cWriteDone)) == 0
 //@   loop 3:
-//@     invariant !gErrSeen && len(recvd(cErr)) == 0 && len(recvd(cFRDone)) == 1 && 0 <= n && n <= 1 && len(recvd(cSNPsDone)) + n == 1
+//@     invariant !gErrSeen && len(recvd(cErr)) == 0 && len(recvd(cFRDone)) == 1 && 0 <= n && n <= 1 && len(recvd(cSNPsDone)) + n == 1 && len(recvd(cWriteDone)) == 0
 //@   loop 4:
 //@     invariant !gErrSeen && len(recvd(cErr)) == 0 && len(recvd(cFRDone)) == 1 && len(recvd(cSNPsDone)) == 1 && 0 <= n && n <= 1 && len(recvd(cWriteDone)) + n == 1
 //@   before return#3: do gErrSeen = true
